@@ -70,6 +70,20 @@ def make_loader(tomo, pos, mats, order, scale, shape, corner_safe, dask_chunks=N
         b = BatchLoader(order=order, scale=scale, output_shape=tuple(shape), corner_safe=corner_safe)
         b.add_tomogram(img, mol, image_id=4)
         return b
+    if via == "batch-history":
+        # the molecule's tomogram is the second of three additions (automatic ids) and the first has been filtered away in between
+        import polars as pl
+        b = BatchLoader(order=order, scale=scale, output_shape=tuple(shape), corner_safe=corner_safe)
+        other = np.zeros_like(np.asarray(tomo, dtype=np.float32)) - 1000.0
+        b.add_tomogram(other, Molecules(np.asarray(pos, dtype=np.float32), rot, features={"who": [0] * len(pos)}))
+        b.add_tomogram(img, Molecules(np.asarray(pos, dtype=np.float32), rot, features={"who": [1] * len(pos)}))
+        b = b.filter(pl.col("who") == 1)
+        b.add_tomogram(other + 500.0, Molecules(np.asarray(pos, dtype=np.float32), rot, features={"who": [2] * len(pos)}))
+        return b.filter(pl.col("who") == 1)
+    if via == "default-box":
+        # the loader has its own default box; the box of the call must win
+        dflt = tuple(int(x) + 2 for x in shape)
+        return SubtomogramLoader(img, mol, order=order, scale=scale, output_shape=dflt, corner_safe=corner_safe)
     if via == "group":
         mol = Molecules(np.asarray(pos, dtype=np.float32), rot, features={"g": [1] * len(pos)})
         ld = SubtomogramLoader(img, mol, order=order, scale=scale, output_shape=tuple(shape), corner_safe=corner_safe)
@@ -200,6 +214,8 @@ def oracle_one(tomos, c, out):
     R = rot24()[c["rot"]].astype(float) if isinstance(c["rot"], int) else np.asarray(c["rot"], dtype=float)
     cpx = np.array([np.float32(p) / c["scale"] for p in c["pos"]], dtype=float)
     shape = c["shape"]
+    if out is not None and tuple(np.asarray(out).shape) != tuple(shape):
+        return False, f"[shape] returned a box of shape {tuple(np.asarray(out).shape)} where {tuple(shape)} was requested"
     oc = (np.array(shape) - 1) / 2
     kk = np.stack(np.meshgrid(*[np.arange(s) for s in shape], indexing="ij"), axis=-1).reshape(-1, 3)
     coords = cpx + (kk - oc) @ R.T
@@ -327,10 +343,13 @@ def oracle_generic(ck, rng, n):
         rot = Rotation.random(random_state=int(rng.integers(0, 2**31)))
         c = dict(tomo=0, pos=[float(x) for x in (cpx * scale).astype(np.float32)], scale=scale,
                  rot=rot.as_matrix().tolist(), shape=shape, order=order, corner_safe=cs, kind=kind + "-generic")
-        c["via"] = ["single", "batch", "group"][i % 3]
+        c["via"] = ["single", "batch", "group", "batch-history", "default-box"][i % 5]
         ld = make_loader(t, [c["pos"]], [rot.as_matrix()], order, scale, shape, cs, via=c["via"])
         try:
-            out = np.asarray(ld.load(0)) if c["via"] != "batch" else np.asarray(ld.asnumpy()[0])
+            if c["via"] == "default-box":
+                out = np.asarray(ld.load(0, output_shape=tuple(shape))) if i % 2 else np.asarray(ld.asnumpy(output_shape=tuple(shape))[0])
+            else:
+                out = np.asarray(ld.load(0)) if c["via"] not in ("batch", "batch-history") else np.asarray(ld.asnumpy()[0])
         except SubvolumeOutOfBoundError:
             out = None
         ok, detail = oracle_one([t], c, out)
